@@ -53,7 +53,7 @@ def install(R: Registry):
              "wf_core(mm) and I6(mm)",
              "invariant of the manager tables that holds at every call, including nested ones made while a module is being removed")
     R.define("wf", "mm: MessageManager", "wf_weak(mm)")
-    R.define("all_open", "mm: MessageManager", "forall('m:Module', implies(ismod(mm, m), not m.conn.closed))",
+    R.define("all_open", "mm: MessageManager", "forall('m:Module', implies(ismod(mm, m), not m.conn.closed)) and forall('c:Socket', implies(dom(mm.modules)[c], not c.closed))",
              "between frames (at handler boundaries) no table entry is closed; only a module in the middle of its removal is")
     R.define("handle_ok", "mm: MessageManager, m: Module", "m != null and implies(dom(mm.modules)[m.conn], ismod(mm, m))",
              "a module handle is the table entry of its socket, or its socket is no longer in the table")
@@ -81,6 +81,7 @@ def install(R: Registry):
     R.define("departed", "mm: MessageManager",
              "forall('m:Module', implies(old(ismod(mm, m)) and not ismod(mm, m), m.conn.closed)) and "
              "forall('c:Socket', implies(old(c.closed), c.closed)) and "
+             "forall('c:Socket', implies(not old(dom(mm.modules)[c]), c.closed == old(c.closed) and c.pending == old(c.pending) and c.frames == old(c.frames))) and "
              "forall('m:Module', implies(old(ismod(mm, m)) and not old(m.conn.closed) and m.conn.closed, not ismod(mm, m) and closed_notices[m] == old(closed_notices[m]) + 1)) and "
              "forall('m:Module', implies(not (old(ismod(mm, m)) and not old(m.conn.closed) and m.conn.closed), closed_notices[m] == old(closed_notices[m])))",
              "modules leave only by being closed; each departure publishes exactly one CLIENT_CLOSED")
@@ -97,7 +98,9 @@ def install(R: Registry):
     R.define("counter_sync", "mm: MessageManager",
              "forall('u:Int', mm.traffic_counter[u] - seen_tr[u] == old(mm.traffic_counter[u] - seen_tr[u])) and "
              "forall('u:Int', mm.message_counts[u] - seen_tm[u] == old(mm.message_counts[u] - seen_tm[u])) and "
-             "forall('u:Int', seen_tr[u] >= old(seen_tr[u]) and seen_tm[u] >= old(seen_tm[u]))",
+             "forall('u:Int', seen_tr[u] >= old(seen_tr[u]) and seen_tm[u] >= old(seen_tm[u])) and "
+             "forall('u:Int', dom(mm.traffic_counter)[u] == (old(dom(mm.traffic_counter)[u]) or seen_tr[u] > old(seen_tr[u]))) and "
+             "forall('u:Int', dom(mm.message_counts)[u] == (old(dom(mm.message_counts)[u]) or seen_tm[u] > old(seen_tm[u])))",
              "the traffic / timing counters advance by exactly the number of messages handled for forwarding outside the statistics context")
     BCAST_ENSURES = [
         ("C18", "counter_sync(self)"),
@@ -179,7 +182,7 @@ def install(R: Registry):
                params=dict(src_module="Module", msg="Message"),
                requires=SUB_REQ, modifies=SUB_MOD,
                ensures=[
-                   "wf(self)", "names_ok(self) and validation_off()", "stays_if_closed(self)",
+                   "wf(self)", "names_ok(self) and validation_off()", "stays_if_closed(self)", ("C18", "counter_sync(self)"),
                    "table_shrinks(self)", "departed(self)", "older_gids_untouched()", "counts_monotone(self)",
                    f"implies(sub_type_of(msg) == {ALL}, src_module.subs == empty('Int'))",
                    f"implies(sub_type_of(msg) != {ALL} and old(src_module.subs)[{ALL}], src_module.subs == old(src_module.subs))",
@@ -195,7 +198,7 @@ def install(R: Registry):
                params=dict(src_module="Module", msg="Message"),
                requires=SUB_REQ, modifies=SUB_MOD,
                ensures=[
-                   "wf(self)", "names_ok(self) and validation_off()", "stays_if_closed(self)",
+                   "wf(self)", "names_ok(self) and validation_off()", "stays_if_closed(self)", ("C18", "counter_sync(self)"),
                    "table_shrinks(self)", "departed(self)", "older_gids_untouched()", "counts_monotone(self)",
                    f"implies(sub_type_of(msg) == {ALL}, src_module.subs == setadd(empty('Int'), {ALL}))",
                    f"implies(sub_type_of(msg) != {ALL} and old(src_module.subs)[{ALL}], src_module.subs == old(src_module.subs))",
@@ -255,6 +258,7 @@ def install2(R: Registry):
     R.define("departed_x", "mm: MessageManager, x: Module",
              "forall('m:Module', implies(old(ismod(mm, m)) and not ismod(mm, m), m.conn.closed)) and "
              "forall('c:Socket', implies(old(c.closed), c.closed)) and "
+             "forall('c:Socket', implies(not old(dom(mm.modules)[c]), c.closed == old(c.closed) and c.pending == old(c.pending) and c.frames == old(c.frames))) and "
              "forall('m:Module', implies(m != x and old(ismod(mm, m)) and not old(m.conn.closed) and m.conn.closed, not ismod(mm, m) and closed_notices[m] == old(closed_notices[m]) + 1)) and "
              "forall('m:Module', implies(m != x and not (old(ismod(mm, m)) and not old(m.conn.closed) and m.conn.closed), closed_notices[m] == old(closed_notices[m]))) and "
              "closed_notices[x] == old(closed_notices[x]) + 1")
@@ -455,7 +459,7 @@ def install4(R: Registry):
                    ("C01", "header.msg_type == old(header.msg_type) and header.dest_mod_id == old(header.dest_mod_id) and header.num_data_bytes == old(header.num_data_bytes)"),
                ],
                loops={1: dict(invariant=[
-                   "wf_top(self) and table_shrinks(self) and subs_shrink(self) and departed(self) and stays_if_closed(self) and counts_monotone(self) and top_gids_untouched()",
+                   "wf_top(self) and table_shrinks(self) and subs_shrink(self) and departed(self) and stays_if_closed(self) and counts_monotone(self) and top_gids_untouched() and counter_sync(self)",
                    "acks == old(acks) and self.wlist == old(self.wlist)",
                    "header.msg_type == old(header.msg_type) and header.dest_mod_id == old(header.dest_mod_id) and header.num_data_bytes == old(header.num_data_bytes)",
                    "forall('m:Module', implies(old(self.logger_modules[m]), implies(ismod(self, m) and not m.conn.closed and self.logger_modules[m], ack_copies[m] == old(ack_copies[m]) + ite(done[m], 1, 0))))",
@@ -490,7 +494,7 @@ def install5(R: Registry):
              "two modules with the same id, at least one of which did not allow multiple instances")
     R.define("ids_ok", "mm: MessageManager",
              "forall('a:Module b:Module', implies(ismod(mm, a) and ismod(mm, b) and a != b and a.connected and b.connected and a.mod_id != 0, not clash(a, b))) and "
-             "forall('a:Module', implies(ismod(mm, a) and a.connected, 0 <= a.mod_id and a.mod_id < 200)) and "
+             "forall('a:Module', implies(ismod(mm, a), 0 <= a.mod_id and a.mod_id < 200)) and "
              "0 <= mm.next_dynamic_mod_id_offset and mm.next_dynamic_mod_id_offset < 100",
              "no two connected modules share an id unless both allow multiple instances; ids are in range")
     IDENT = ["Module.mod_id", "Module.unique", "Module.pid", "Module.name", "Module.is_logger", "Module.is_daemon", "Module.connected"]
@@ -565,7 +569,7 @@ def install5(R: Registry):
                     "a request that would break id uniqueness or names an id outside the user range is refused"),
                ],
                loops={1: dict(invariant=[
-                   "wf_top(self) and table_shrinks(self) and subs_shrink(self) and departed(self) and stays_if_closed(self) and counts_monotone(self) and top_gids_untouched()",
+                   "wf_top(self) and table_shrinks(self) and subs_shrink(self) and departed(self) and stays_if_closed(self) and counts_monotone(self) and top_gids_untouched() and counter_sync(self)",
                    "ids_ok(self) and others_identity_same(self, module) and acks == old(acks) and ack_copies == old(ack_copies)",
                    "not old(module.connected) and not module.connected and module.mod_id == rid(msg) and module.mod_id != 0 and 1 <= module.mod_id and module.mod_id <= 100",
                    "implies(typeis(msg.data, MDF_CONNECT_V2), module.unique == (cast(msg.data, MDF_CONNECT_V2).allow_multiple == 0) and module.pid == cast(msg.data, MDF_CONNECT_V2).pid and "
@@ -601,7 +605,9 @@ def install6(R: Registry):
                raises={"ConnectionError": [
                    ("C03", "wf_top(self) and self.modules == old(self.modules) and self.subscriptions == old(self.subscriptions) and self.logger_modules == old(self.logger_modules)"),
                    ("C03", "acks == old(acks) and ack_copies == old(ack_copies) and gid_next == old(gid_next) and delivered == old(delivered) and notice == old(notice) and stray == old(stray) and closed_notices == old(closed_notices)"),
-                   ("C03", "forall('m:Module', m.msg_count == old(m.msg_count)) and forall('c:Socket', c.closed == old(c.closed))"),
+                   ("C03", "forall('m:Module', m.msg_count == old(m.msg_count) and m.connected == old(m.connected) and m.drops == old(m.drops)) and forall('c:Socket', c.closed == old(c.closed))"),
+                   ("C18", "self.traffic_counter == old(self.traffic_counter) and self.message_counts == old(self.message_counts) and seen_tr == old(seen_tr) and seen_tm == old(seen_tm)"),
+                   ("C03", "cur_gid == old(cur_gid) and fwd_hdr == old(fwd_hdr) and fwd_data == old(fwd_data) and forall('c:Socket', c.pending == old(c.pending) and c.frames == old(c.frames))"),
                ]})
 
     # ------------------------------------------------------------------ process_message
@@ -662,7 +668,7 @@ def install7(R: Registry):
                                    "forall('m:Module', implies(ismod(self, m), 0 <= m.mod_id and m.mod_id < 200))"],
                modifies=TOP_MOD,
                ensures=STAT_ENS + [
-                   ("C18", "stats_sync(self)"),
+                   ("C18", "stats_sync(self)"), ("C06", "ids_ok(self)"),
                    ("C18", "forall('u:Int', seen_tm[u] == 0) and seen_tr == old(seen_tr)", "the timing counters restart; the statistics message itself is not counted"),
                    ("C18", "gid_next > old(gid_next) and typeis(fwd_data[old(gid_next)], MDF_TIMING_MESSAGE) and fwd_hdr[old(gid_next)].msg_type == 80 and "
                            "timing_payload(cast(fwd_data[old(gid_next)], MDF_TIMING_MESSAGE), old(seen_tm))",
@@ -682,3 +688,126 @@ def install7(R: Registry):
                    "forall('c:Socket', implies(done[c], exists('c2:Socket', done[c2] and self.modules[c2].mod_id == self.modules[c].mod_id and "
                    "data.ModulePID[self.modules[c].mod_id] == wrap_int(self.modules[c2].pid, 32))))",
                ])})
+
+
+def install8(R: Registry):
+    """MESSAGE_TRAFFIC (C18), ACTIVE_CLIENTS (C03)"""
+    TOP_REQ, TOP_ENS, TOP_MOD = R.TOP_REQ, R.TOP_ENS, R.TOP_MOD
+    STAT_ENS = [(t, c if c != "counts_monotone(self)" else "forall('m:Module', m.msg_count >= old(m.msg_count) and implies(m.connected, old(m.connected)))")
+                for t, c in TOP_ENS if c != "counter_sync(self)"]
+    R.define("entry_ok", "k: Int, j: Int, p: Int, sq: List[Int], cnt: Map[Int, Int]",
+             "tr_types[k][j] == wrap_int(sq[p], 32) and tr_counts[k][j] == wrap16u(cnt[sq[p]])")
+    R.contract(M + "MessageManager.send_traffic", tags="C18 C03",
+               locals=dict(),
+               requires=TOP_REQ + [("C18", "stats_sync(self)"), ("C06", "ids_ok(self)")],
+               modifies=TOP_MOD + ["glob:tr_n", "glob:tr_types", "glob:tr_counts", "MessageManager.traffic_start", "MessageManager.traffic_seqno"],
+               ghost_entry=["tr_n = 0"], ghost_results={"seq": "List[Int]"},
+               ghost_after={"MessageManager.send_message": "tr_types = store(tr_types, tr_n, data.msg_type)\ntr_counts = store(tr_counts, tr_n, data.msg_count)\ntr_n = tr_n + 1"},
+               ghost_exit=["seen_tr = store_all_zero()"],
+               ensures=STAT_ENS + [
+                   ("C18", "stats_sync(self)"), ("C06", "ids_ok(self)"),
+                   ("C18", "forall('u:Int', seen_tr[u] == 0) and seen_tm == old(seen_tm)", "the interval restarts; the statistics messages themselves are not counted"),
+                   ("C18", "forall('t:Int', implies(old(seen_tr)[t] > 0, 0 <= pos(seq, t) and pos(seq, t) < len(seq) and seq[pos(seq, t)] == t)) and "
+                           "forall('p:Int', implies(0 <= p and p < len(seq), old(seen_tr)[seq[p]] > 0 and pos(seq, seq[p]) == p))",
+                    "seq lists every message type seen in the interval exactly once"),
+                   ("C18", "tr_n == (len(seq) + 63) // 64", "as many sub-messages as needed, none when nothing was seen"),
+                   ("C18", "forall('k:Int j:Int', implies(0 <= k and k < tr_n and 0 <= j and j < 64 and 64 * k + j < len(seq), entry_ok(k, j, 64 * k + j, seq, old(seen_tr))))",
+                    "entry j of sub-message k is the (64k+j)-th seen type with its exact count"),
+                   ("C18", "forall('k:Int j:Int', implies(0 <= k and k < tr_n and 0 <= j and j < 64 and 64 * k + j >= len(seq), tr_types[k][j] == -1))",
+                    "every other entry is marked unused: no count is attributed to a type that was not seen"),
+               ],
+               loops={1: dict(invariant=[
+                   "wf_top(self) and table_shrinks(self) and departed(self) and stays_if_closed(self) and top_gids_untouched() and forall('m:Module', m.msg_count >= old(m.msg_count) and implies(m.connected, old(m.connected)))",
+                   "subs_shrink(self) and acks == old(acks) and ack_copies == old(ack_copies) and ids_ok(self)",
+                   "self.traffic_counter == old(self.traffic_counter) and self.message_counts == old(self.message_counts) and seen_tr == old(seen_tr) and seen_tm == old(seen_tm) and self.sending_traffic",
+                   "typeis(data, MDF_MESSAGE_TRAFFIC) and data != null and nbytes(data) == data.type_size",
+                   "tr_n == idx // 64 and sub_seqno == tr_n + 1 and i == ite(idx == 0, -1, (idx - 1) % 64)",
+                   "forall('k:Int j:Int', implies(0 <= k and k < tr_n and 0 <= j and j < 64, entry_ok(k, j, 64 * k + j, seq, old(seen_tr))))",
+                   "forall('j:Int', implies(0 <= j and j < idx % 64, data.msg_type[j] == wrap_int(seq[64 * (idx // 64) + j], 32) and data.msg_count[j] == wrap16u(old(seen_tr)[seq[64 * (idx // 64) + j]])))",
+                   "implies(idx % 64 > 0, forall('j:Int', implies(idx % 64 <= j and j < 64, data.msg_type[j] == -1)))",
+               ])})
+
+
+def install9(R: Registry):
+    """ACTIVE_CLIENTS and the main loop (C03)"""
+    import z3
+    from pyvc.core import Val, fresh_name, Exc
+    TOP_REQ, TOP_ENS, TOP_MOD = R.TOP_REQ, R.TOP_ENS, R.TOP_MOD
+
+    R.contract(M + "MessageManager.send_active_clients", tags="C03 C18",
+               requires=TOP_REQ + [("C06", "ids_ok(self)")], modifies=TOP_MOD + ["MessageManager.last_client_info"],
+               ensures=TOP_ENS + [("C06", "ids_ok(self)")],
+               loops={1: dict(invariant=[
+                   "wf_top(self) and table_shrinks(self) and subs_shrink(self) and departed(self) and stays_if_closed(self) and counts_monotone(self) and top_gids_untouched() and counter_sync(self)",
+                   "acks == old(acks) and ack_copies == old(ack_copies) and typeis(msg, MDF_ACTIVE_CLIENTS) and msg != null and nbytes(msg) == msg.type_size and ids_ok(self)",
+               ])})
+
+    # ------------------------------------------------------------------ select / accept (environment)
+    def select_h(eng, st, env, node):
+        """select.select(r, w, x, t): arbitrary duplicate-free sub-lists of r and w.
+        Obligation (C03): no locally closed socket in the lists (select raises ValueError on fd -1)."""
+        S = eng.S
+        outs = []
+        x = z3.Const(fresh_name("sx"), S.Ref)
+        def member(v):
+            k = v.t[0]
+            if k == "list" and v.z is None:
+                return z3.BoolVal(False)
+            if k == "list":
+                i = z3.Int(fresh_name("i"))
+                return z3.Exists([i], z3.And(0 <= i, i < eng.list_len(v), z3.Select(eng.list_at(v), i) == x))
+            if k == "dictview":
+                d = v.z[1]
+                return z3.Select(eng.sort(d.t).dom(d.z), x)
+            if k == "none":
+                return z3.BoolVal(False)
+            raise Exception(f"select over {v.t}")
+        closed = eng.heap_arr(st, "Socket", "closed", ("bool",))
+        res = []
+        for name in ("r", "w", "x"):
+            mem = member(env[name])
+            if not z3.is_false(mem):
+                eng.oblige(st, f"{eng.func_key}/call:select.select/no_closed_socket[{name}]@{eng.rel(node)}", "requires@callsite",
+                           z3.ForAll([x], z3.Implies(mem, z3.Not(z3.Select(closed, x)))), node, ("C03",),
+                           "select.select raises ValueError when a closed socket is in one of its lists")
+                st.assume(z3.ForAll([x], z3.Implies(mem, z3.Not(z3.Select(closed, x)))))
+            L = eng.fresh(("list", ("ref", "Socket")), "sel_" + name)
+            n, at = eng.list_len(L), eng.list_at(L)
+            i, j = z3.Int(fresh_name("i")), z3.Int(fresh_name("j"))
+            st.assume(n >= 0)
+            if z3.is_false(mem):
+                st.assume(n == 0)
+            else:
+                st.assume(z3.ForAll([i], z3.Implies(z3.And(0 <= i, i < n), z3.substitute(mem, (x, z3.Select(at, i)))), patterns=[z3.Select(at, i)]))
+                st.assume(z3.ForAll([i, j], z3.Implies(z3.And(0 <= i, i < j, j < n), z3.Select(at, i) != z3.Select(at, j))))
+            res.append(L)
+        return [(st, Val(("tuple",) + tuple(v.t for v in res), tuple(res)))]
+    R.contracts["select.select"].handler = select_h
+    R.assume_text("select.select returns duplicate-free sub-lists of its arguments (any subset may be ready); it raises ValueError for a closed socket")
+
+    R.external("Socket.accept", params=dict(self="Socket"), returns="Tuple[Socket, Address]",
+               requires=[("C03", "not self.closed")],
+               modifies=["Socket.closed", "Socket.pending", "Socket.frames", "Socket.last_count"],
+               ensures=["fresh(result[0]) and allocated(result[0]) and fresh(result[1]) and allocated(result[1]) and result[0] != result[1]",
+                        "not result[0].closed and result[0].pending == 0 and result[0].frames == 0",
+                        "forall('s:Socket', implies(s != result[0], s.closed == old(s.closed) and s.pending == old(s.pending) and s.frames == old(s.frames) and s.last_count == old(s.last_count)))"],
+               doc="accept(): a new connected socket and its peer address (OSError such as EMFILE is assumed absent)")
+    R.external("Socket.setsockopt", params=dict(self="Socket", a="Int", b="Int", c="Int"), pure=True, ensures=[])
+
+    # ------------------------------------------------------------------ run
+    R.define("table_allocated", "mm: MessageManager", "forall('c:Socket', implies(dom(mm.modules)[c], allocated(c) and allocated(mm.modules[c])))")
+    R.define("run_inv", "mm: MessageManager",
+             "wf_top(mm) and ids_ok(mm) and stats_sync(mm) and table_allocated(mm) and "
+             "forall('m:Module', implies(ismod(mm, m), 0 <= m.mod_id and m.mod_id < 200))",
+             "the manager invariant between select rounds")
+    R.contract(M + "MessageManager.run", tags="C03",
+               requires=[("C03", "wf_weak(self) and names_ok(self) and all_open(self) and buffers_ok(self) and cur_gid == 0 and ids_ok(self) and stats_sync(self) and table_allocated(self) and "
+                                 "forall('m:Module', implies(ismod(self, m), 0 <= m.mod_id and m.mod_id < 200))")],
+               modifies=TOP_MOD + ["MessageManager.*", "Module.*", "glob:_VALIDATION_ENABLED", "glob:tr_n", "glob:tr_types", "glob:tr_counts"],
+               ensures=[],
+               loops={1: dict(invariant=[("C03", "run_inv(self)")]),
+                      2: dict(invariant=[
+                          ("C03", "run_inv(self)"),
+                          ("C03", "forall('j:Int', implies(0 <= j and j < len(rlist), rlist[j] != self.listen_socket and rlist[j] != null))"),
+                      ]),
+                      3: dict(invariant=[])})
